@@ -219,6 +219,11 @@ func checkC06(t *testing.T, job *Job, res *Result) {
 		for _, c := range c06Configs() {
 			scs = append(scs, c06Scenario(c))
 		}
+		for _, pre := range [][]string{{"deploy s1 h=a.example.com p=/"}, {"deploy s1 h=a.example.com p=/", "rdeploy s1 n=1", "rset s1 pct=0 allow=v"}} {
+			for _, op := range []string{"deploy s1 h=a.example.com p=/ n=2", "deploy s2 h=b.example.com p=/", "rdeploy s1 n=1", "pause s1 max=20000", "stop s1 msg=m1", "remove s1", "deploy s1 h=a.example.com,c.example.com p=/"} {
+				scs = append(scs, c06StateUnwritable(pre, op))
+			}
+		}
 		b := Bounds{D: 1, S: 0}
 		if tier == "thorough" {
 			b = Bounds{D: 2, S: 0}
@@ -226,7 +231,7 @@ func checkC06(t *testing.T, job *Job, res *Result) {
 		runS(t, job, res, "C06", scs, b, 3000)
 	}
 	res.Engine = "H+S"
-	res.Rule += "; engine S part: a command that fails only after the deploy timeout (rollout deploy / deploy with an unhealthy target) with another command (rollout stop, pause, resume, stop, deploy of the same or another service, a failing command) served 1s into it, every schedule within the bound: afterwards neither the state file nor the live configuration names a rejected target, the file restores to the configuration in force, rejected targets are not probed, and a split is accepted exactly if rollout targets existed before"
+	res.Rule += "; engine S part: a command that fails only after the deploy timeout (rollout deploy / deploy with an unhealthy target) with another command (rollout stop, pause, resume, stop, deploy of the same or another service, a failing command) served 1s into it, every schedule within the bound: afterwards neither the state file nor the live configuration names a rejected target, the file restores to the configuration in force, rejected targets are not probed, and a split is accepted exactly if rollout targets existed before; a command run while the state file cannot be written: if it reports failure, requests, list and probing are as before"
 }
 
 // ---- engine S part: another command is served while a doomed command is still running
@@ -318,6 +323,86 @@ func c06Scenario(c c06cfg) *Scenario {
 		}
 		if rsetErr != wantErr {
 			vs = append(vs, Violation{"C06", fmt.Sprintf("rollout-set-after-failed-command got=%s want=%s", rsetErr, wantErr), fmt.Sprintf("pre=%v failing=%q other=%q", c.pre, c.failing, c.other)})
+		}
+		return vs
+	}
+	return sc
+}
+
+// c06StateUnwritable: the state file cannot be written (its temporary name is taken by a directory) when a command
+// that would otherwise succeed runs. Whether the command then reports the problem is the implementation's choice; IF it
+// reports failure, nothing may have changed and nothing of it may keep running.
+func c06StateUnwritable(pre []string, op string) *Scenario {
+	sc := &Scenario{Name: fmt.Sprintf("C06-S state file unwritable pre=%v op=%q", pre, op), Horizon: 90 * time.Second}
+	var before, after string
+	var cmdErr error
+	var named []string
+	var probedLate map[string]int
+	sc.Run = func(w *World) {
+		before, after, cmdErr, named = "", "", nil, nil
+		h := &HWorld{World: w, M: newModel(), allNames: map[string]bool{}}
+		for _, p := range pre {
+			h.apply(parseOp(p))
+		}
+		time.Sleep(100 * time.Millisecond)
+		look := func() string {
+			var parts []string
+			for _, host := range []string{"a.example.com", "b.example.com", "c.example.com"} {
+				for _, ck := range []string{"", "kamal-rollout=v"} {
+					r := w.Do(ReqSpec{Host: host, Path: "/x", Cookie: ck})
+					parts = append(parts, fmt.Sprintf("%s[%s]=%d@%s", host, ck, r.Status, r.ServedBy()))
+				}
+			}
+			return strings.Join(parts, " ") + " | " + routerSummary(w.Router)
+		}
+		before = look()
+		os.Remove(w.State + ".tmp")
+		if err := os.Mkdir(w.State+".tmp", 0o755); err != nil {
+			w.Note("setup: %v", err)
+			return
+		}
+		defer os.Remove(w.State + ".tmp")
+		o := parseOp(op)
+		fh := &HWorld{World: w, M: h.M.clone(), allNames: map[string]bool{}, opNo: 50}
+		named = fh.targetNames(o)
+		fh.apply(o)
+		if fh.lastCmd != nil {
+			cmdErr = fh.lastCmd.Err
+		}
+		if cmdErr == nil {
+			return
+		}
+		from := w.Net.Mark("settle-start", "")
+		time.Sleep(3*vI + 50*time.Millisecond)
+		probedLate = map[string]int{}
+		for _, e := range w.Net.Events() {
+			if e.Seq > from && (e.Kind == "probe" || e.Kind == "probe-refused") {
+				probedLate[e.Target]++
+			}
+		}
+		after = look()
+	}
+	sc.Check = func(w *World) []Violation {
+		var vs []Violation
+		for _, n := range w.Notes {
+			vs = append(vs, Violation{"C06", "setup", n})
+		}
+		if cmdErr == nil || len(vs) > 0 {
+			return vs
+		}
+		if before != after {
+			vs = append(vs, Violation{"C06", "failed-command-changed-behaviour class=state-file-unwritable " + strings.Fields(op)[0], fmt.Sprintf("%q reported an error (%s), but afterwards the proxy behaves differently:\n before: %s\n after:  %s", op, strings.ReplaceAll(cmdErr.Error(), w.Dir, "<dir>"), before, after)})
+		}
+		for _, t := range named {
+			if probedLate[t] > 0 && !strings.Contains(before, t) {
+				vs = append(vs, Violation{"C06", "probes-to-rejected-by-failed-command-target class=state-file-unwritable", fmt.Sprintf("%s probed %d times after %q reported an error", t, probedLate[t], op)})
+			}
+		}
+		for _, t := range strings.Fields(strings.NewReplacer(",", " ", "=", " ", ";", " ", "@", " ").Replace(after)) {
+			if strings.HasSuffix(t, ":80") && probedLate[t] == 0 {
+				vs = append(vs, Violation{"C06", "live-target-no-longer-probed class=state-file-unwritable", fmt.Sprintf("%s (in service after %q reported an error) was not probed in 3 intervals", t, op)})
+				break
+			}
 		}
 		return vs
 	}
